@@ -65,7 +65,7 @@ Qed.
 Theorem tbound_step B s o : 0 <= B -> seed_of o <= B -> sinv s -> wf_step s o -> tbound B s -> tbound B (fst (step s o)).
 Proof.
   intros HB HS SI W [TU TL]. pose proof (sinv_step s o SI W) as SI'. destruct SI as [UO IL].
-  destruct o as [id key sf deny t0|r payload pc h|r src size|r key|r mh|r io|r payload pc h|r|osrc okeep oid okey osf odeny]; cbn [step].
+  destruct o as [id key sf deny t0|r payload pc h|r src size|r key|r mh|r io|r payload pc h|r|osrc okeep ohh oid okey osf odeny]; cbn [step].
   - split; [exact TU|]. cbn [fst s_logs s_univ]. intros r l H.
     destruct (Nat.lt_ge_cases r (length (s_logs s))) as [Hl|Hl].
     + rewrite nth_error_app1 in H by assumption. eauto.
@@ -147,7 +147,7 @@ Qed.
 (* the universe grows by at most one entry per operation *)
 Lemma univ_length_step s o : (length (s_univ (fst (step s o))) <= S (length (s_univ s)))%nat.
 Proof.
-  destruct o as [id key sf deny t0|r payload pc h|r src size|r key|r mh|r io|r payload pc h|r|osrc okeep oid okey osf odeny]; cbn [step]; cbn [fst s_univ]; try lia.
+  destruct o as [id key sf deny t0|r payload pc h|r src size|r key|r mh|r io|r payload pc h|r|osrc okeep ohh oid okey osf odeny]; cbn [step]; cbn [fst s_univ]; try lia.
   - destruct (nth_error (s_logs s) r) as [l|]; [|cbn; lia].
     destruct (append l payload pc h) as [l' [e|[]|]]; cbn [fst s_univ]; rewrite ?app_length; cbn [length]; try lia.
     destruct (append_entry l payload pc h); cbn [fst s_univ]; rewrite ?app_length; cbn [length]; lia.
